@@ -1,6 +1,7 @@
 package main
 
 import (
+	"fmt"
 	"strconv"
 	"strings"
 )
@@ -311,5 +312,16 @@ func init() {
 		genNewestOldest(g)
 		genExpired(g)
 		genRouterInfoPublished(g)
+		// second ↔ millisecond constructors over the whole stated domain (millisecond dates below 2^63)
+		g.in("date-constructors-whole-range")
+		for _, ms := range []int64{0, 1, 999, 1000, 1<<31*1000 - 1, 1 << 31 * 1000, (1<<32-1)*1000 + 999, 1 << 53, 9223372036854, 9223372036855,
+			9223372036854775, 1 << 56, 1<<56 - 1, 1 << 62, 1<<63 - 2, 1<<63 - 1} {
+			g.emit("newDateMs", fmt.Sprint(ms))
+			g.emit("newDateUnix", fmt.Sprint(ms/1000))
+		}
+		for i := 0; i < g.n(200, 5000); i++ {
+			ms := int64(g.R.next() >> uint(1+g.R.intn(40)))
+			g.emit("newDateMs", fmt.Sprint(ms))
+		}
 	}
 }
